@@ -138,6 +138,17 @@ CHECKS = {
             "of sequences with cap 3, sessions, 2-3 parties), histories up to depth 5 / 6; every message involves the "
             "fuzzer-side party; slicing to party subsets is not covered",
             "TLC state graph of the message-level language walked in lock-step through the real forecaster"),
+    "C20": ("model_checking",
+            "ProtocolRun.tla models the run loop with its environment (per-connection FIFO channels, arbitrary arrival interleaving, "
+            "peer faults); TLC checks NoSpuriousError, ExactlyOnceInOrder, BadRemoteEndsRun and, under fairness, Terminates / "
+            "BadRemoteLeadsToError; TLC-enumerated arrival schedules and fault behaviours drive the real IO loop in-process under a "
+            "virtual clock with scripted external parties; the send / deliver / end events of every run are validated by Trace_Run.tla "
+            "(prefix of an interaction, message texts in the constrained language, sent and received data exactly once in order, "
+            "valid peers never fail, invalid ones always do)",
+            "bounded: 3 protocols (two external senders; request/response with an optional second round; a state in which either "
+            "side may speak), 60 sampled / all 243 schedules of length 5, 4-6 peer faults; sockets and threads replaced by a "
+            "deterministic scheduler; one sender to two fuzzer-side recipients only as pinned witness F20",
+            "TLA+ model with environment (TLC, safety + liveness) + TLC-generated schedules driving the real loop + TLC trace validation"),
 }
 
 NOT_YET = "check not built yet in this round (work in progress, see DESIGN.md section 8); not claimed"
